@@ -51,6 +51,13 @@ type Case struct {
 	SizeMode  string `json:"size_mode,omitempty"`
 	SizeDelta int64  `json:"size_delta,omitempty"` // body size = limit + delta
 
+	// malformed body (empty / white space only / truncated JSON) on one page
+	BadPage int    `json:"bad_page"` // request ordinal (-1: none, -2: the page without next link)
+	BadKind string `json:"bad_kind,omitempty"`
+
+	// which error the failing callback returns (index into callbackErrors)
+	FailErr int `json:"fail_err,omitempty"`
+
 	// referrers tag schema
 	TagIndex404  bool `json:"tag_index_404,omitempty"`
 	DigestHeader bool `json:"digest_header,omitempty"`
@@ -83,7 +90,8 @@ type served struct {
 	Mode     string   `json:"mode,omitempty"`
 	Note     string   `json:"note,omitempty"`
 	Listing  bool     `json:"listing"`
-	ValueFit bool     `json:"-"` // oversize only through trailing white space after a value that fits
+	Bad      string   `json:"bad,omitempty"` // malformed body served
+	ValueFit bool     `json:"-"`             // oversize only through trailing white space after a value that fits
 }
 
 // script serves one Case.
@@ -476,6 +484,10 @@ func (s *script) list(w http.ResponseWriter, r *http.Request, rec *served) {
 		mode, target = c.SizeMode, c.limit()+c.SizeDelta
 	}
 	body, base, usedMode := sizedDoc(head, field, listJSON, mode, target)
+	if c.BadKind != "" && (ord == c.BadPage || (c.BadPage == -2 && !hasNext)) {
+		body = badBody(body, c.BadKind)
+		rec.Bad, usedMode = c.BadKind, "bad-"+c.BadKind
+	}
 	rec.Body, rec.Base, rec.Mode = len(body), base, usedMode
 	rec.ValueFit = usedMode == "ws-trailing" && int64(base) <= c.limit()
 	if isRef {
@@ -577,6 +589,13 @@ func (s *script) tagIndex(w http.ResponseWriter, r *http.Request, rec *served) {
 		mode, target = c.SizeMode, c.limit()+c.SizeDelta
 	}
 	body, base, used := sizedDoc(head, "manifests", listJSON, mode, target)
+	if c.BadKind != "" && c.BadPage != -1 {
+		body = badBody(body, c.BadKind)
+		used = "bad-" + c.BadKind
+		if r.Method == http.MethodGet {
+			rec.Bad = c.BadKind
+		}
+	}
 	rec.Body, rec.Base, rec.Mode = len(body), base, used
 	rec.ValueFit = used == "ws-trailing" && int64(base) <= c.limit()
 	rec.Status = http.StatusOK
@@ -600,4 +619,18 @@ func (s *script) tagIndex(w http.ResponseWriter, r *http.Request, rec *served) {
 	w.WriteHeader(http.StatusOK)
 	w.(http.Flusher).Flush()
 	w.Write(body)
+}
+
+// badBody turns a well-formed document into a malformed one.
+func badBody(body []byte, kind string) []byte {
+	switch kind {
+	case "empty":
+		return nil
+	case "ws":
+		return []byte(" \n\t \r\n")
+	case "cut-1":
+		return body[:len(body)-1]
+	default: // cut-half
+		return body[:len(body)/2]
+	}
 }
